@@ -387,7 +387,7 @@ pub fn finish(ctx: &Ctx) -> i32 {
     crate::engine::finish(
         ctx,
         Finish {
-            rule: "complete enumeration of all 65536 opcode numbers through lookup_opcode, of every table entry through iter(), of every spirv::Op / GLOp / CLOp value through get(), of extended-instruction numbers 0..2^17 for both sets, plus random 32-bit extended-instruction numbers, plus sequences of 60 lookups on one thread in arbitrary order over the three tables (a number near the previous one, the same number in another table, declared and arbitrary numbers). Oracle: lookup returns an entry iff the number is a golden opcode; entry opcode/name are that opcode's; no two entries share a number; well-formedness computed directly (result type first and immediately followed by result id, no required operand after an optional one, variadic only last); operands (kind, quantifier), capabilities and extensions equal the golden record. non-trivial = declared number or direct neighbour of a declared number; distinct = the number.",
+            rule: "complete enumeration of all 65536 opcode numbers through lookup_opcode, of every table entry through iter(), of every spirv::Op / GLOp / CLOp value through get(), of extended-instruction numbers 0..2^17 for both sets, plus random 32-bit extended-instruction numbers, plus sequences of 60 lookups on one thread in arbitrary order over the three tables (a number near the previous one, the same number in another table, declared and arbitrary numbers). Oracle: lookup returns an entry iff the number is a golden opcode; entry opcode/name are that opcode's; no two entries share a number; well-formedness computed directly (result type first and immediately followed by result id, no required operand after an optional one, variadic only last); operands (kind, quantifier), capabilities and extensions equal the golden record. non-trivial = declared number or direct neighbour of a declared number; distinct = the number. Added in rounds 18-19: lookup-sequences: numbers sharing a half with the previous one or mixed with a hash constant, exclusive and concurrent runs.",
             assumptions: vec![
                 "'the Khronos grammar of the pinned SDK release' is represented by the golden snapshot of the pinned tree, cross-checked against hand-typed specification anchors (opcode numbers, operand lists of ~110 classic instructions, GLSL.std.450 and OpenCL.std numbers); the JSON itself is not available offline".into(),
             ],
